@@ -21,7 +21,7 @@ import lib, pipes, semconv, execcorr as X
 
 N = {"quick": 22, "thorough": 300}
 BACKENDS = ("pandas", "sqlite", "pgtext", "polars", "pllazy")
-INDEX_KINDS = ("shuffled", "strings", "duplicates", "multi")
+INDEX_KINDS = ("shuffled", "strings", "duplicates", "multi", "offset_range", "step_range")
 GUARD_FLAVORS = ("fl_pandas", "fl_sqlite", "fl_polars")
 
 
@@ -66,6 +66,26 @@ def make_case(rng, deep=False):
     return X.Case(s, tabs, ops)
 
 
+def make_limit_null_case(rng):
+    """order_rows with a limit whose leading key has NULLS (completed by the unique column): the backend's own placement of
+    nulls must be the same with and without the limit"""
+    t = pipes.gen_table(rng, "d1", null_rate=0.4, nrows=rng.choice([4, 5, 6, 8]), types=("int", "float", "str"), unique_col="uid")
+    nullable = [c for j, (c, _) in enumerate(t["spec"]) if c != "uid" and any(r[j] is None for r in t["rows"]) and any(r[j] is not None for r in t["rows"])]
+    if not nullable:
+        return None
+    k = rng.choice(nullable)
+    s = {"op": "table", "name": "d1"}
+    if rng.random() < 0.3:
+        s = {"op": "extend", "src": s, "ops": {"zz": "uid + 1"}}
+    cs = [k, "uid"]
+    rev = [c for c in cs if rng.random() < 0.4]
+    s = {"op": "order_rows", "src": s, "columns": cs, "reverse": rev, "limit": rng.choice([1, 2, 3])}
+    try:
+        return X.Case(s, [t], pipes.build(s, {"d1": t}))
+    except Exception:
+        return None
+
+
 def perm_of(kind, n):
     """a permutation of range(n) that is a function of (kind, n) only, so that replays and shrunk cases can rebuild it"""
     idx = list(range(n))
@@ -85,6 +105,10 @@ def index_of(kind, n):
         return pd.Index(["r%d" % ((7 * i) % max(n, 1)) for i in range(n)], dtype=object)
     if kind == "duplicates":
         return pd.Index([i // 2 for i in range(n)], dtype="int64")
+    if kind == "offset_range":          # a RangeIndex that is NOT 0..n-1 (a slice of a bigger frame)
+        return pd.RangeIndex(10, 10 + n)
+    if kind == "step_range":
+        return pd.RangeIndex(1, 1 + 2 * n, 2)
     if kind == "multi":
         return pd.MultiIndex.from_arrays([[i % 2 for i in range(n)], ["k%d" % (n - i) for i in range(n)]], names=["u", "v"])
     raise ValueError(kind)
@@ -166,6 +190,16 @@ def keys_total_nonnull(script, frame):
     return X.order_is_total(script, frame)
 
 
+def keys_distinct(script, frame):
+    """the final order_rows keys are pairwise distinct in `frame`, a null counting as a value: the backend's own order of the
+    unlimited result is then determined, whatever its null placement, so `limit` must be its prefix ON THE SAME BACKEND"""
+    fo = X.final_order(script)
+    if fo is None or frame is None or any(c not in frame.columns for c in fo[0]):
+        return False
+    keys = [tuple(pipes.norm_cell(v) for v in r) for r in frame[fo[0]].to_numpy(dtype=object)]
+    return len(set(keys)) == len(keys)
+
+
 def limit_oracle(case_like, backend, res):
     """result with limit == first `limit` rows of the same pipeline without the limit"""
     fo = X.final_order(case_like.script)
@@ -181,8 +215,8 @@ def limit_oracle(case_like, backend, res):
     want_n = min(lim, len(full))
     if len(res) != want_n:
         return f"limit={lim}: {len(res)} rows returned, the unlimited result has {len(full)}", None
-    if not keys_total_nonnull(s2, full):
-        # ties or null keys: only "drawn from the unlimited result"
+    if not keys_distinct(s2, full):
+        # ties: only "drawn from the unlimited result"
         _, fr = pipes.canon(full)
         _, rr = pipes.canon(res)
         pool = list(fr)
@@ -339,12 +373,12 @@ def run(chk):
         "harness/semconv.py, harness/pipes.py, harness/execcorr.py (PostgreSQL-dialect text runs on SQLite 3.40.1; no PostgreSQL server here)"]
     chk.assumptions = [
         "premise of the row-order theorem (checked inside Coq on every case, Model/PermGuard.perm_guard_b): windows running anything but a plain group aggregate order each partition strictly; order_rows with a limit is total; one representation per group-key value",
-        "null placement inside an ordering is a backend convention (Pandas last; SQLite first when ascending): the sortedness oracle skips pairs decided by a null key and the limit oracle compares row for row only when the keys are non-null and distinct; cross-backend differences belong to C01",
+        "null placement inside an ordering is a backend convention (Pandas last; SQLite first when ascending): the sortedness oracle skips pairs decided by a null key and the limit oracle compares the limited result row for row with the prefix of the unlimited result OF THE SAME BACKEND whenever the keys are pairwise distinct (a null counting as a value); cross-backend differences belong to C01",
         "a backend that raises on the original AND on the varied input is not counted"]
     chk.cov["rule"] = ("random pipelines (depth 1..4 quick / 1..5 thorough) over two random tables with a unique column `uid` (generator completes window and limit orders "
                        "with a column that is still unique at that point), 45% end in an extra order_rows (random reversals, limit 1/2/3/5 when total); each evaluated on "
                        "Pandas, SQLite, PostgreSQL-text-on-SQLite, Polars eager and lazy on the original input, on 2 (thorough 4) row permutations of every input table, and "
-                       "on Pandas with shuffled-int / string / duplicate / MultiIndex labels and permuted+string labels; non-trivial = contains an ordered window, a limit, a project, a join or a final order_rows; distinct by script+tables")
+                       "on Pandas with shuffled-int / string / duplicate / MultiIndex / offset-RangeIndex / stepped-RangeIndex labels and permuted+string labels; plus 6 (thorough 60) order_rows-with-limit cases whose leading key has nulls; non-trivial = contains an ordered window, a limit, a project, a join or a final order_rows; distinct by script+tables")
     T["prove"] = time.time()
     variants = variants_for(chk.tier)
     cases = []
@@ -353,6 +387,10 @@ def run(chk):
             cases.append(X.case_from_json(json.load(open(f))["case"]))
         except Exception:
             chk.dist("corpus_unreadable")
+    for _ in range(6 if chk.tier == "quick" else 60):
+        c = make_limit_null_case(rng)
+        if c is not None:
+            cases.append(c)
     n = N[chk.tier] + len(cases)
     tries = 0
     while len(cases) < n and tries < n * 30:
